@@ -94,7 +94,7 @@ impl Check for C15 {
             runs.push(("broker-side".into(), RunOpts { victim: Some(victim), fault: Some((BROKER_SIDE, k, kind)), clean: None }));
         }
         for k in ks(n_client + 1) {
-            for c in [Clean::ShutdownRequested, Clean::BrokerShutdown, Clean::ForcedByBroker] {
+            for c in [Clean::ShutdownRequested, Clean::BrokerShutdown, Clean::ForcedByBroker, Clean::ShutdownAndBrokerShutdown] {
                 if quick && k % 2 == 1 && k > 10 {
                     continue;
                 }
@@ -246,10 +246,100 @@ impl Check for C15 {
                 w.dx.shutdown();
             }
         }
+        // "Shutdown requested" queued directly behind fire-and-forget requests (events, items,
+        // calls whose reply nobody waits for): everything is put into the client's request queue
+        // within one poll of the application task, so the client task finds the shutdown request
+        // right behind them. The request must not be lost.
+        const PATTERNS: [&[u8]; 10] = [b"", b"e", b"eee", b"i", b"ii", b"ei", b"ie", b"ce", b"eic", b"iiieee"];
+        for (pi, pat) in PATTERNS.iter().enumerate() {
+            for sched in 0..4u64 {
+                let mut rng = Rng::derive(ctx.seed, 0xC15_E, pi as u64 * 100 + sched);
+                let mut w = World::new();
+                let caps = [(None, None), (Some(1), Some(1)), (Some(2), Some(16)), (Some(4), Some(2))][(sched % 4) as usize];
+                if w.add_client(caps, None, &mut rng).is_err() || w.add_client((None, None), None, &mut rng).is_err() {
+                    out.inconclusive("queued-shutdown scenario: clients could not connect");
+                    continue;
+                }
+                let h = w.handle(0);
+                let peer = w.handle(1);
+                let sh = w.sh.clone();
+                let pat: Vec<u8> = pat.to_vec();
+                let after: std::rc::Rc<std::cell::RefCell<Option<String>>> = Default::default();
+                let after2 = after.clone();
+                w.sh.spawn_app("burst-then-shutdown@0", false, 0, async move {
+                    let Ok(o) = h.create_object(ObjectUuid(Uuid::from_u128(0xC15_C))).await else { return };
+                    let Ok(svc) = o.create_service(ServiceUuid(Uuid::from_u128(0xC15_D)), aldrin::low_level::ServiceInfo::new(1)).await else { return };
+                    let Ok(px) = peer.create_proxy(svc.id()).await else { return };
+                    let _ = px.subscribe(0).await;
+                    // a second service on the peer, so that the victim can have calls in flight
+                    let Ok(po) = peer.create_object(ObjectUuid(Uuid::from_u128(0xC15_E))).await else { return };
+                    let Ok(psvc) = po.create_service(ServiceUuid(Uuid::from_u128(0xC15_F)), aldrin::low_level::ServiceInfo::new(1)).await else { return };
+                    let Ok(vp) = h.create_proxy(psvc.id()).await else { return };
+                    let Ok((pending_tx, unclaimed_rx)) = h.create_low_level_channel().claim_sender().await else { return };
+                    let Ok(_rx) = unclaimed_rx.unbind().claim(peer.clone(), 16).await else { return };
+                    let Ok(mut tx) = pending_tx.establish().await else { return };
+                    let _ = h.sync_broker().await;
+                    // ---- no suspension point from here to shutdown() ----
+                    sh.op("queued-shutdown:burst");
+                    let mut replies = Vec::new();
+                    for (k, c) in pat.iter().enumerate() {
+                        match c {
+                            b'e' => {
+                                let _ = svc.emit(0, k as u32);
+                            }
+                            b'i' => {
+                                // capacity 16 was granted and announced: ready without waiting
+                                if let Some(Ok(())) = crate::bus::dx::now_or_never(tx.send_ready()) {
+                                    let _ = tx.start_send_item(k as u32);
+                                }
+                            }
+                            _ => replies.push(vp.call(0, k as u32, None)),
+                        }
+                    }
+                    h.shutdown();
+                    // ---- from here on the client has been asked to stop ----
+                    let r = h.sync_client().await;
+                    *after2.borrow_mut() = Some(format!("{:?}", r));
+                    drop(replies);
+                    drop((svc, o, px, po, psvc, vp, tx, _rx));
+                });
+                let end = w.run(&mut rng, 200_000);
+                out.eval();
+                out.count("fault_runs[ShutdownBehindQueuedRequests]", 1);
+                out.distinct_case(fnv(format!("sbq-{}-{}", pi, sched).as_bytes()));
+                let replay = json!({"scenario": "shutdown-behind-queued-requests", "pattern": String::from_utf8_lossy(PATTERNS[pi]), "schedule": sched, "seed": ctx.seed});
+                if end == RunEnd::Budget {
+                    out.inconclusive("queued-shutdown scenario: poll budget used up");
+                    continue;
+                }
+                let reached = w.sh.0.ops.borrow().get("queued-shutdown:burst").copied().unwrap_or(0) > 0;
+                if !reached {
+                    out.count("queued_shutdown_setup_incomplete", 1);
+                    w.dx.shutdown();
+                    continue;
+                }
+                let r = w.clients[0].run_result.borrow().clone();
+                out.seen("client_run_results", format!("ShutdownBehindQueuedRequests -> {:?}", r));
+                match r.as_deref() {
+                    Some("Ok") => {}
+                    Some(other) => out.violation("run-result@ShutdownBehindQueuedRequests", format!("shutdown() queued behind requests {:?}: Client::run returned {}", String::from_utf8_lossy(PATTERNS[pi]), other), replay.clone()),
+                    None => out.violation("run-does-not-return@ShutdownBehindQueuedRequests", format!("Handle::shutdown() was queued directly behind the requests {:?} (e = emit, i = item, c = call): Client::run has not returned at quiescence", String::from_utf8_lossy(PATTERNS[pi])), replay.clone()),
+                }
+                match after.borrow().as_deref() {
+                    Some("Err(Shutdown)") => {}
+                    Some(other) if r.is_some() => out.violation("request-after-shutdown@ShutdownBehindQueuedRequests", format!("sync_client() issued after shutdown() (queued behind {:?}) returned {}", String::from_utf8_lossy(PATTERNS[pi]), other), replay.clone()),
+                    _ => {}
+                }
+                for (task, p) in w.dx.panics.clone() {
+                    out.violation(format!("panic:{}:{}", task.trim_end_matches(char::is_numeric), crate::guard::panic_site(&p)), format!("task {} panicked: {}", task, p), replay.clone());
+                }
+                w.dx.shutdown();
+            }
+        }
     }
     fn gates(&self, _tier: Tier, merged: &Outcome) -> Vec<String> {
         let mut g = Vec::new();
-        for c in ["error", "eof", "send-only", "shutdown+send-only", "broker-side", "ShutdownRequested", "LastHandleDropped", "BrokerShutdown", "ForcedByBroker"] {
+        for c in ["error", "eof", "send-only", "shutdown+send-only", "broker-side", "ShutdownRequested", "LastHandleDropped", "BrokerShutdown", "ForcedByBroker", "ShutdownBehindQueuedRequests"] {
             if merged.counters.get(&format!("fault_runs[{}]", c)).copied().unwrap_or(0) == 0 {
                 g.push(format!("no run for cause {}", c));
             }
